@@ -226,6 +226,37 @@ def _ty_kind(ty):
     return "other"
 
 
+def _root_local_of(body, op):
+    """the local an operand is a (clone of a / reference to a / move of a) view of"""
+    p = op_place(op)
+    if p is None:
+        return None
+    l = p["l"]
+    for _ in range(8):
+        ds = body.defs.get(l, [])
+        if len(ds) != 1:
+            return l
+        d = ds[0]
+        if d.si is None:
+            c = d.node.get("callee")
+            if c is not None and callee_decl(c) in ("core::clone::Clone::clone", "core::option::Option::as_ref") and d.node["args"]:
+                q = op_place(d.node["args"][0])
+                if q is None:
+                    return l
+                l = q["l"]
+                continue
+            return l
+        rv = d.node.get("rv") or {}
+        if d.node["k"] == "assign" and rv.get("k") in ("use", "ref"):
+            q = rv.get("place") if rv["k"] == "ref" else op_place(rv["ops"][0])
+            if q is None or [e for e in q["p"] if e != "*"]:
+                return l
+            l = q["l"]
+            continue
+        return l
+    return l
+
+
 def shapes_of(prog, body, op, site=None, stack=(), depth=0, penv=None):
     k = op_const(op)
     if k is not None:
@@ -266,6 +297,26 @@ def shapes_of(prog, body, op, site=None, stack=(), depth=0, penv=None):
                     if len(members) >= 2 and not (1 <= bl <= body.n_args):
                         joint = (bl, members)
                 comps = [shapes_of(prog, body, x, o.site, stack, depth + 1, penv) for x in ops]
+                # `(x.is_none(), x)`: the bool is a function of the Option next to it
+                if len(ops) == 2 and joint is None:
+                    rel = None
+                    for oo in origins(body, ops[0], transparent=()):
+                        if oo.kind == "call" and callee_decl(oo.data) in ("core::option::Option::is_none", "core::option::Option::is_some"):
+                            ra = _root_local_of(body, oo.site.node["args"][0])
+                            rb = _root_local_of(body, ops[1])
+                            if ra is not None and ra == rb and rel in (None, callee_decl(oo.data).rsplit("::", 1)[-1]):
+                                rel = callee_decl(oo.data).rsplit("::", 1)[-1]
+                            else:
+                                rel = "mixed"
+                        else:
+                            rel = "mixed"
+                    if rel in ("is_none", "is_some"):
+                        for y in comps[1]:
+                            some = isinstance(y, tuple) and y[0] == "Some"
+                            none = y == "None"
+                            st = (none if rel == "is_none" else some) if (some or none) else "?"
+                            out.add(project(("t", (st, y)), o.fields))
+                        continue
                 combos = [()]
                 if joint is not None:
                     bl, members = joint
